@@ -81,7 +81,40 @@ def _ref_all_parities(k, n, planted):
     return out
 
 
+HUGE_N = [2 ** 63 - 1, 2 ** 63, 2 ** 64 + 5, 10 ** 30]
+
+
+def _seed_value(spec):
+    """Seeds that JSON cannot spell are stored as {'kind':..,'value':..}."""
+    if not isinstance(spec, dict):
+        return spec
+    v = spec["value"]
+    return {"tuple": lambda: tuple(v), "frozenset": lambda: frozenset(v),
+            "bytes": lambda: v.encode(), "bytearray": lambda: bytearray(
+                v.encode()), "float": lambda: float(v)}[spec["kind"]]()
+
+
+SEED_SPECS = [None, None, 0, 1, 42, "str", -7, 2 ** 70,
+              {"kind": "tuple", "value": [1, 2]},
+              {"kind": "tuple", "value": ["run", 3]},
+              {"kind": "frozenset", "value": [1, 2, 3]},
+              {"kind": "bytes", "value": "abc"},
+              {"kind": "bytearray", "value": "abc"},
+              {"kind": "float", "value": 2.5}]
+
+
 def generate(rng, config):
+    if config != "cli" and rng.random() < 0.02:
+        # far beyond anything that can be enumerated: only shape is checked
+        # (fair PRNG only: the dense fallback would enumerate for ever)
+        strategy, budget = None, 0
+        return {"kind": "kxor" if config == "kxor" else "kcnf",
+                "k": rng.randint(1, 3), "n": rng.choice(HUGE_N),
+                "m": rng.randint(0, 3), "planted": [], "planted_form": "list",
+                "planted_outer": "list", "klass": "CNF", "huge": True,
+                "seed_arg": rng.choice([None, 3]),
+                "prng": {"seed": rng.randrange(2 ** 32),
+                         "strategy": strategy, "budget": budget}}
     n = rng.choice([0, 1, 2, 3, 3, 4, 4, 5, 6, 7])
     k = rng.choice(list(range(0, n + 2)))
     if os.environ.get("VERIF_TIER") == "thorough" and rng.random() < 0.1:
@@ -125,7 +158,8 @@ def generate(rng, config):
             "planted_outer": rng.choice(["list", "list", "tuple", "iter",
                                          "generator"]),
             "klass": rng.choice(["CNF", "CNF", "OPB"]),
-            "seed_arg": rng.choice([None, None, 0, 1, 42, "str"]),
+            # documented as "hashable object"
+            "seed_arg": rng.choice(SEED_SPECS),
             "prng": {"seed": rng.randrange(2 ** 32), "strategy": strategy,
                      "budget": budget}}
     if config != "cli" and rng.random() < 0.3:
@@ -158,7 +192,7 @@ def execute(case, ctx):
         if outer in ("iter", "generator"):
             ctx.fault("planted_assignments_one_shot_iterable")
     if case["seed_arg"] is not None:
-        kw["seed"] = case["seed_arg"]
+        kw["seed"] = _seed_value(case["seed_arg"])
     rounds = [case["kind"]] + (case.get("again") or [])
     if planted and case.get("planted_outer") in ("iter", "generator"):
         rounds = rounds[:1]          # a one-shot iterable serves one request
@@ -210,6 +244,31 @@ def _one_request(case, ctx, kind, ri, kw, planted):
     def bad(clause, detail):
         raise Violation("C13/%s/%s" % (kind, clause), "%s\n%s" %
                         (where, detail))
+
+    if case.get("huge"):
+        ctx.fault("n_beyond_2^63")
+        ctx.nontrivial = True
+        if res[0] == "exc":
+            if isinstance(res[1], ValueError):
+                bad("possible-request-refused", "m=%d is far below the "
+                    "maximum but %r" % (m, res[1]))
+            raise Violation("C13/%s/exception/%s" %
+                            (kind, exc_signature(res[1], REPO)),
+                            "%s\n%r" % (where, res[1]))
+        F = res[1]
+        cl = [tuple(c) for c in F]
+        per = 1 if kind == "kcnf" else 2 ** (k - 1)
+        if F.number_of_variables() != n or len(cl) != m * per:
+            bad("clause-count", "%d variables, %d clauses" %
+                (F.number_of_variables(), len(cl)))
+        for c in cl:
+            vs = [abs(l) for l in c]
+            if len(set(vs)) != k or any(not 1 <= v <= n for v in vs):
+                bad("clause-shape", "%r" % (c,))
+        if len(set(frozenset(c) for c in cl)) != len(cl):
+            bad("duplicate-clause", "%r" % (cl,))
+        ctx.probe("request with n beyond 2^63")
+        return
 
     unknown_plant = bool(case.get("cli") and case.get("plant") and k <= n)
     sets = [set(a) for a in planted]
